@@ -32,10 +32,11 @@ import (
 )
 
 // store provides Read() and Write() functions to read and write
-// the server's session locks map. The state file is never closed - only
-// truncated, rewritten, and sync()ed
+// the server's session locks map. The state file is replaced atomically
+// (written to a temporary file which is then renamed) on every write
 type store struct {
-	fh *os.File
+	fh   *os.File
+	path string
 }
 
 // New returns a new store instance
@@ -50,7 +51,8 @@ func New(stateFile string) (*store, error) {
 	}
 
 	return &store{
-		fh: fh,
+		fh:   fh,
+		path: stateFile,
 	}, nil
 
 }
@@ -64,12 +66,25 @@ func (l *store) Write(sessionLocks map[string][]cl.Lock) error {
 	}
 
 	d := marshalLocks(sessionLocks)
-	l.fh.Truncate(0)
-	l.fh.Seek(0, io.SeekStart)
-	if _, err := l.fh.Write(d); err != nil {
+
+	// Write the new state to a temporary file and rename it over the state file, so that the state
+	// file holds either the previous state or the new state in full at whatever point the server
+	// process is killed. (Rewriting the state file in place left it empty or partially written
+	// between truncating and writing it.)
+	tmp, err := os.OpenFile(l.path+".tmp", os.O_RDWR|os.O_CREATE|os.O_TRUNC, 0644)
+	if err != nil {
 		panic(err)
 	}
-	l.fh.Sync()
+	if _, err := tmp.Write(d); err != nil {
+		panic(err)
+	}
+	tmp.Sync()
+	if err := os.Rename(tmp.Name(), l.path); err != nil {
+		panic(err)
+	}
+	// The temporary file is the state file now
+	l.fh.Close()
+	l.fh = tmp
 	return nil
 }
 
